@@ -13,6 +13,11 @@ type Clause struct {
 	Label string
 	E     *Expr
 	Src   string
+	// Defines: a definitional postcondition (`defines`): it says what a ghost function MEANS in terms
+	// of this function's result; callers assume it like any postcondition, the function's own
+	// verification does not try to prove it (there is nothing to prove it from) and lists it as an
+	// assumption. The other clauses of the contract are checked as usual.
+	Defines bool
 }
 
 type LoopSpec struct {
@@ -146,7 +151,7 @@ type ContractFile struct {
 var clauseKeywords = map[string]bool{
 	"func": true, "lemma": true, "extern": true, "opaque": true, "pure": true, "props": true, "arith": true,
 	"requires": true, "ensures": true, "modifies": true, "loop": true, "inline": true, "trusted": true,
-	"nosafe": true, "effectfree": true, "uses": true, "ghost": true, "assigns": true, "logged": true, "callsite": true, "where": true, "global": true, "recvfrom": true, "sets": true, "coretypes": true, "appends": true, "splitreturns": true, "purecallback": true, "bounded": true, "reveal": true, "onlyprop": true, "assumepre": true, "assumecalleepre": true, "detachedgo": true, "panicfree": true, "ownpackage": true,
+	"nosafe": true, "effectfree": true, "uses": true, "ghost": true, "assigns": true, "logged": true, "callsite": true, "where": true, "global": true, "recvfrom": true, "sets": true, "coretypes": true, "appends": true, "splitreturns": true, "purecallback": true, "bounded": true, "reveal": true, "onlyprop": true, "assumepre": true, "assumecalleepre": true, "defines": true, "detachedgo": true, "panicfree": true, "ownpackage": true,
 }
 
 var labelRe = regexp.MustCompile(`^([A-Za-z_][A-Za-z0-9_]*)\s*:\s*([^:=].*)$`)
@@ -348,6 +353,11 @@ func ParseContractFile(path, pkgPath string) (*ContractFile, error) {
 				}
 			case "ensures":
 				if c, ok := parseClause(rc.line, rest, fmt.Sprintf("e%d", len(cur.Ensures)+1)); ok {
+					cur.Ensures = append(cur.Ensures, c)
+				}
+			case "defines":
+				if c, ok := parseClause(rc.line, rest, fmt.Sprintf("d%d", len(cur.Ensures)+1)); ok {
+					c.Defines = true
 					cur.Ensures = append(cur.Ensures, c)
 				}
 			case "modifies":
